@@ -17,7 +17,8 @@ def load_known(prop):
     """[(sig_regex, text)] for lines ``known: property=<prop> sig=<regex> <text>``.
     ``fixed:`` lines suppress nothing and are ignored here."""
     out = []
-    if not os.path.exists(KNOWN):
+    if not os.path.exists(KNOWN) or os.environ.get("VERIF_IGNORE_KNOWN"):
+        # VERIF_IGNORE_KNOWN=1: report recorded findings as violations (to regenerate their replays)
         return out
     with open(KNOWN) as fp:
         for line in fp:
